@@ -191,12 +191,21 @@ def finish_case(rng, c, s):
             new = rng.choice([0.001, 0.0025, 0.005, 0.01, 0.02])
             c['ps'] = [str(Fraction(new * float(s)))] * 2
             c['new_ps'] = str(Fraction(new))
-    if not float_exact(c):
+    if not float_exact(c) or not constructible(c):
         return None
     s_eff = the_scale(c)
     if s_eff != s or s_eff < Fraction(1, 4) or s_eff > 4:
         return None
     return c
+
+
+def constructible(c):
+    """lentil.Plane refuses a mask (segment) without a non-zero sample"""
+    amp, _, mask = build(c)
+    mask = np.asarray(amp if mask is None else mask)
+    if mask.ndim < 2:
+        return True
+    return all(np.any(a != 0) for a in (mask if mask.ndim == 3 else mask[None]))
 
 
 def rnd_plane(rng, n, m, special=True):
@@ -263,7 +272,21 @@ def generate(rng, tier):
         c = rnd_plane(rng, n, m)
         c['op'] = 'rescale' if rng.random() < 0.7 else 'resample'
         add(c, rnd_scale(rng))
-    for c in out:
+    # tiny planes (2..6 samples), randomly interleaved: they exercise the same code paths and are small enough for the
+    # runner's vm_compute cross-check of the extracted binary
+    tiny = []
+    while len(tiny) < len(out):
+        c = rnd_plane(rng, rng.randint(2, 6), rng.randint(2, 6))
+        c['op'] = 'rescale' if rng.random() < 0.7 else 'resample'
+        st = Fraction(rnd_scale(rng))
+        c = finish_case(rng, c, st) if dyadic_small(st) else None
+        if c is not None:
+            tiny.append(c)
+    mixed = []
+    while out or tiny:
+        src = out if (out and (not tiny or rng.random() < 0.5)) else tiny
+        mixed.append(src.pop(0))
+    for c in mixed:
         yield c
 
 
@@ -543,6 +566,28 @@ def nearest_index(n, N, s, j):
     return math.floor(x + Fraction(1, 2))
 
 
+def nn_masks(c, s):
+    """nearest-neighbour resampling of the mask segments in plain Python (ties up, 0 outside [0, n-1])"""
+    n, m = c['n'], c['m']
+    N, M = math.ceil(n * s), math.ceil(m * s)
+    amp, _, mask = build(c)
+    if mask is None:
+        mask = np.asarray(amp)
+    mask = np.asarray(mask)
+    segs = mask if mask.ndim == 3 else mask[None]
+    ri = [nearest_index(n, N, s, i) for i in range(N)]
+    ci = [nearest_index(m, M, s, j) for j in range(M)]
+    inside = np.outer([r is not None for r in ri], [q is not None for q in ci])
+    yy = np.array([r if r is not None else 0 for r in ri], dtype=int)[:, None]
+    xx = np.array([q if q is not None else 0 for q in ci], dtype=int)[None, :]
+    return [((a[yy, xx] != 0) & inside).astype(int) for a in segs], ri, ci
+
+
+def vanishing_segment(c, s):
+    segs, _, _ = nn_masks(c, s)
+    return any(not a.any() for a in segs)
+
+
 def node_index(n, N, s, j):
     """integer node inside the array hit by output sample j, else None: x_j = (j - N/2)/s + n/2"""
     x = (Fraction(j) - Fraction(N, 2)) / s + Fraction(n, 2)
@@ -561,11 +606,13 @@ def oracle(c, impl):
         return None if impl['untouched'] else 'the refused call modified the plane'
     if scalar_mask(c):
         return None            # a plane without a mask array is outside the quantifier; behaviour tied to the model only
-    if 'err' in impl:
-        return f"{c['op']} raised {impl['err']} on a valid plane"
     s = the_scale(c)
     n, m = c['n'], c['m']
     amp, opd, mask = build(c)
+    if 'err' in impl:
+        if impl['err'] == 'IndexError' and not int_dtype(c) and vanishing_segment(c, s):
+            return None if impl['untouched'] else 'the refused call modified the plane'
+        return f"{c['op']} raised {impl['err']} on a valid plane"
     if not impl['untouched']:
         return 'the original plane was modified'
     if impl['shares_memory']:
@@ -607,17 +654,11 @@ def oracle(c, impl):
         return f'mask is not binary (dtype {mi.dtype}, values {np.unique(mi)[:5]})'
     # documented nearest-neighbour resampling of the mask (exact regime only; exact ties are not pinned)
     if dyadic_small(s) and mi.shape[-2:] == (N, M):
-        ri = [nearest_index(n, N, s, i) for i in range(N)]
-        ci = [nearest_index(m, M, s, j) for j in range(M)]
+        expected, ri, ci = nn_masks(c, s)
         tr, tc = tie_flags(n, N, s), tie_flags(m, M, s)
         keep = np.outer([not t for t in tr], [not t for t in tc])
-        inside = np.outer([r is not None for r in ri], [q is not None for q in ci])
-        yy = np.array([r if r is not None else 0 for r in ri])[:, None]
-        xx = np.array([q if q is not None else 0 for q in ci])[None, :]
-        segs_in = in_mask if in_mask.ndim == 3 else in_mask[None]
         segs_out = mi if mi.ndim == 3 else mi[None]
-        for q, (a, b) in enumerate(zip(segs_in, segs_out)):
-            exp = ((a[yy, xx] != 0) & inside).astype(int)
+        for q, (exp, b) in enumerate(zip(expected, segs_out)):
             bad = (b != exp) & keep
             if bad.any():
                 k = np.argwhere(bad)[0]
